@@ -43,7 +43,7 @@ static inline void mon_init(void)
 /* (B) key/element tracker: an automaton of its own whose control does not depend on the declared counts of (A) */
 static inline void kt_leaf(int kind, unsigned long val)
 {
-  if (kt_depth == 0) { kt_topleafs++; return; }
+  if (kt_depth == 0) { kt_topleafs++; g_ekind = kind; g_eval = val; g_eseen = 1; return; }
   if (kt_depth == 1) {
     if (kt_topmap) {
       if (!kt_isval) {
